@@ -59,7 +59,7 @@ func (w *world) kssP(key string) *big.Int {
 	return big.Convert(new(gobig.Int).Exp(pk.R[0].Go(), w.kssSecret.Go(), pk.N.Go()))
 }
 
-func (w *world) participates(key string) bool { return key == "k1" || key == "k2" }
+func (w *world) participates(key string) bool { return key == "k1" || key == "k2" || key == "k3" }
 
 // cred returns a credential on the given key whose secret is shared with the keyshare server iff the key participates.
 func (w *world) cred(key string, nonrev bool) *gabi.Credential {
@@ -139,7 +139,7 @@ func main() {
 	res := hx.NewResult()
 	rng := hx.Rng(a.Seed, "ks")
 	k := hx.Keys1024()
-	w := &world{keys: map[string]hx.KeyPair{"k1": k[0], "k2": k[1], "k4": hx.Key3()}, creds: map[string]*gabi.Credential{},
+	w := &world{keys: map[string]hx.KeyPair{"k1": k[0], "k2": k[1], "k3": hx.Key3(), "k4": hx.Key3()}, creds: map[string]*gabi.Credential{},
 		userSecret: randBits(rng, 250), kssSecret: randBits(rng, 250),
 		ctx: map[int]*big.Int{1: big.NewInt(1), 2: randBits(rng, 200)}}
 	if a.Tier == "thorough" { // 1024-bit and larger keys mixed
@@ -160,7 +160,7 @@ func main() {
 		cases = cases[:a.N]
 	}
 	// warm the credential cache sequentially (issuance is not what is measured here)
-	for _, key := range []string{"k1", "k2", "k4"} {
+	for _, key := range []string{"k1", "k2", "k3", "k4"} {
 		w.cred(key, false)
 		w.cred(key, true)
 	}
@@ -197,7 +197,18 @@ func runCase(w *world, kssKeys map[string]*gabikeys.PublicKey, c aCase, rng *mra
 	panicked, msg := hx.Try(func() {
 		userRandomizer := randBits(rng, gabikeys.DefaultSystemParameters[1024].LmCommit)
 		randomizers := map[string]*big.Int{"secretkey": userRandomizer}
-		commRequest, hashInput, err := gabi.KeyshareUserCommitmentRequest(builders, randomizers, kssKeys)
+		userKeys := kssKeys
+		namesK3 := false
+		for _, b := range c.Bl {
+			namesK3 = namesK3 || b.Key == "k3"
+		}
+		if namesK3 { // the user names a key the server does not know - consistently, from the first message on
+			userKeys = map[string]*gabikeys.PublicKey{"k3": w.keys["k3"].PK}
+			for k, v := range kssKeys {
+				userKeys[k] = v
+			}
+		}
+		commRequest, hashInput, err := gabi.KeyshareUserCommitmentRequest(builders, randomizers, userKeys)
 		if err != nil {
 			hx.Fatal("KeyshareUserCommitmentRequest: %v", err)
 		}
@@ -264,6 +275,16 @@ func runCase(w *world, kssKeys map[string]*gabikeys.PublicKey, c aCase, rng *mra
 	}
 	released := respErr == nil && proofP != nil
 	res.Count(fmt.Sprintf("%s:code=%v:spec=%v", c.Alt.Name, released, c.Released))
+	usesK3 := false
+	for _, b := range c.Bl {
+		usesK3 = usesK3 || b.Key == "k3"
+	}
+	if usesK3 && c.Alt.Name == "none" {
+		if released {
+			res.Violation("response-released-for-unknown-key", "the keyshare server released its response for challenge inputs naming a key it does not know", det)
+		}
+		return
+	}
 	if c.Alt.Name != "none" {
 		if released {
 			res.Violation("response-released-for-altered-inputs",
